@@ -339,13 +339,13 @@ def rule_names(ctx, prec):
         miss_prec = sorted(n for n in names if n not in prec)
         miss_ops = sorted(n for n in names if n.upper() not in ops_table)
         if miss_prec:
-            rr.fail('%s::%s::names without precedence %s' % (
-                OP, c.name, ','.join('%02x' % ord(x) if len(x) == 1 else x
-                                     for x in miss_prec)),
+            rr.fail('%s::%s::names without precedence' % (OP, c.name),
                 '%s can produce the operator name(s) %s, which Operator.'
                 '_precedences does not contain: KeyError while parsing' % (
                     c.name, ', '.join(repr(m) for m in miss_prec)), file=OP,
-                function=c.name, line=c.node.lineno)
+                function=c.name, line=c.node.lineno,
+                items=['%02x' % ord(x) if len(x) == 1 else x
+                       for x in miss_prec])
         if miss_ops:
             known_prec = [m for m in miss_ops if m not in miss_prec]
             if known_prec:
